@@ -167,9 +167,47 @@ def run_simgrid_mc(ctx, idx, prog, reduction="odpor", extra_cfg=(), timeout=120,
                 except ValueError:
                     rs.append({"e": "garbled"})
         recs.append(rs)
-    recs_by_file = recs
-    master = next((rs for rs in recs if any(r.get("e") == "born" for r in rs)), [])   # the process the others are forked from
-    pidmap = {r["pid"]: r["a"] for r in master if r.get("e") == "born"}
+    # Every application process writes its own file; a process forked by the checker starts its file with a "forked" record
+    # (hook H1) naming its parent and how many lines the lineage had logged at the fork: the complete trace of a process is that
+    # prefix of its parent's complete trace followed by its own lines. The checker's own file holds the H4 lines.
+    byp = {}
+    for f, rs in zip(files, recs):
+        byp[int(re.search(r"t_(\d+)", f).group(1))] = rs
+    cexec, creplay = {}, {}
+    checker_pids = set()
+    for pid, rs in byp.items():
+        for r in rs:
+            if r.get("e") == "cexec":
+                cexec.setdefault(r["app"], []).append(r)
+                checker_pids.add(pid)
+            elif r.get("e") == "creplay":
+                creplay[r["app"]] = creplay.get(r["app"], 0) + r["n"]
+                checker_pids.add(pid)
+    pidmap = {}
+    for rs in byp.values():
+        for r in rs:
+            if r.get("e") == "born":
+                pidmap[r["pid"]] = r["a"]
+
+    def own(pid):
+        rs = [dict(r) for r in byp[pid] if r.get("e") != "forked"]
+        if with_checker_view:
+            merge_checker_view(rs, cexec.get(pid, []), creplay.get(pid, 0), pidmap)
+        return rs
+    owned = {pid: own(pid) for pid in byp if pid not in checker_pids}
+    memo = {}
+
+    def full(pid, depth=0):
+        if pid in memo:
+            return memo[pid]
+        rs = byp[pid]
+        head = rs[0] if rs and rs[0].get("e") == "forked" else None
+        if head is not None and head["from"] in owned and depth < 200:
+            pre = full(head["from"], depth + 1)[: head["lines"]]
+        else:
+            pre = []
+        memo[pid] = pre + owned[pid]
+        return memo[pid]
 
     def clean(rs):
         o = []
@@ -180,23 +218,15 @@ def run_simgrid_mc(ctx, idx, prog, reduction="odpor", extra_cfg=(), timeout=120,
                 r = dict(r, a=pidmap.get(r["a"], -r["a"]))
             o.append(r)
         return o
-    # hook H4: the checker's own log (cexec / creplay lines, keyed by the pid of the application process)
-    cexec, creplay, pids = {}, {}, []
-    for f, rs in zip(files, recs_by_file):
-        for r in rs:
-            if r.get("e") == "cexec":
-                cexec.setdefault(r["app"], []).append(r)
-            elif r.get("e") == "creplay":
-                creplay[r["app"]] = creplay.get(r["app"], 0) + r["n"]
+    parents = {rs[0]["from"] for rs in byp.values() if rs and rs[0].get("e") == "forked"}
+    roots = [pid for pid in owned if not (byp[pid] and byp[pid][0].get("e") == "forked")]
     traces = []
-    for f, rs in zip(files, recs_by_file):
-        if rs is master or any(r.get("e") in ("cexec", "creplay") for r in rs):
-            continue
-        pid = int(re.search(r"t_(\d+)", f).group(1))
-        t = clean(master) + clean(rs)
-        if with_checker_view:
-            merge_checker_view(t, cexec.get(pid, []), creplay.get(pid, 0), pidmap)
-        traces.append(t)
+    for pid in sorted(owned):
+        if pid in roots and pid in parents:
+            continue          # the initial process: it only runs the application up to its first simcalls
+        t = clean(full(pid))
+        if t:
+            traces.append(t)
     res = {"rc": rc, "out": text, "traces": traces, "deadlock": "DEADLOCK DETECTED" in text,
            "assert": "PROPERTY VIOLATED" in text or "property violation" in text.lower(),
            "replays": re.findall(r"model-check/replay:'([0-9;/]*)'", text), "timeout": rc == 124}
